@@ -79,7 +79,20 @@ func bytesExpr(a string) []byte {
 	}
 	var out []byte
 	for _, part := range strings.Split(a, "+") {
-		if strings.HasPrefix(part, "r") {
+		if strings.HasPrefix(part, "g") { // g<len>s<seed>: non-periodic bytes, byte i = top byte of c06Mix(seed*1000003+i)
+			i := strings.Index(part, "s")
+			n, err := strconv.Atoi(part[1:i])
+			if err != nil {
+				panic(err)
+			}
+			seed, err := strconv.ParseUint(part[i+1:], 10, 64)
+			if err != nil {
+				panic(err)
+			}
+			for k := 0; k < n; k++ {
+				out = append(out, byte(c06Mix(seed*1000003+uint64(k))>>56))
+			}
+		} else if strings.HasPrefix(part, "r") {
 			i := strings.Index(part, "x")
 			n, err := strconv.Atoi(part[1:i])
 			if err != nil {
@@ -109,16 +122,143 @@ func hxs(b []byte) string {
 	return fmt.Sprintf("#%d.%016x", len(b), h)
 }
 
+// ---------- deterministic, non-periodic contents for big values ----------
+
+// c06Mix is the one source of generated contents shared with the Lean driver (Driver/C06.lean `mix`).
+func c06Mix(x uint64) uint64 { return (x + 1) * 0x9E3779B97F4A7C15 }
+
+// c06Join prints a list or a tuple: in full up to 64 items, otherwise "#<count>.<FNV-1a 64 of the joined text>".
+func c06Join(parts []string) string {
+	j := strings.Join(parts, ",")
+	if len(parts) <= 64 {
+		return "(" + j + ")"
+	}
+	h := uint64(14695981039346656037)
+	for i := 0; i < len(j); i++ {
+		h ^= uint64(j[i])
+		h *= 1099511628211
+	}
+	return fmt.Sprintf("#%d.%016x", len(parts), h)
+}
+
+// c06GenElem is the value of type t derived from x (the driver's `genAbs` computes the same).
+func c06GenElem(t *Ty, x uint64) Val {
+	m := c06Mix(x)
+	digits := map[string]int{"byte": 2, "ubyte": 2, "angle": 2, "short": 4, "ushort": 4, "int": 8, "float": 8, "varint": 8,
+		"long": 16, "double": 16, "varlong": 16}
+	if d, ok := digits[t.Kind]; ok {
+		return atom(hexU(m>>(64-uint(d)*4), d))
+	}
+	sub := func(j int) uint64 { return x*31 + uint64(j) + 1 }
+	bytesOf := func() string {
+		n := int(m>>60) % 4
+		b := make([]byte, n)
+		for j := range b {
+			b[j] = byte(c06Mix(sub(j)) >> 56)
+		}
+		return hx(b)
+	}
+	sext := func(v uint64, bits uint) uint64 { // two's complement of a `bits`-bit field, as 64 bits
+		if v>>(bits-1) != 0 {
+			return v | ^uint64(0)<<bits
+		}
+		return v
+	}
+	switch t.Kind {
+	case "bool":
+		return atom(fmt.Sprint(m >> 63))
+	case "string", "bytearray", "pluginmsg":
+		return atom(bytesOf())
+	case "position":
+		return list(atom(hexU(sext(m>>38, 26), 16)), atom(hexU(sext(c06Mix(x+1)>>52, 12), 16)), atom(hexU(sext(c06Mix(x+2)>>38, 26), 16)))
+	case "uuid":
+		return atom(hexU(m, 16) + hexU(c06Mix(x+0x51), 16))
+	case "bitset":
+		n := int(m >> 62)
+		vs := make([]Val, n)
+		for j := range vs {
+			vs[j] = atom(hexU(c06Mix(sub(j)), 16))
+		}
+		return list(vs...)
+	case "tuple":
+		vs := make([]Val, len(t.Args))
+		for j, a := range t.Args {
+			vs[j] = c06GenElem(a, sub(j))
+		}
+		return list(vs...)
+	case "option":
+		if m>>63 == 0 {
+			return list()
+		}
+		return list(c06GenElem(t.Args[0], sub(0)))
+	case "opt1":
+		return c06GenElem(t.Args[0], sub(0))
+	case "opt0":
+		return atom("_")
+	case "ary":
+		n := int(m >> 62)
+		vs := make([]Val, n)
+		for j := range vs {
+			vs[j] = c06GenElem(t.Args[0], sub(j))
+		}
+		return list(vs...)
+	case "fixedbits":
+		b := make([]byte, t.N)
+		for j := range b {
+			b[j] = byte(c06Mix(sub(j)) >> 56)
+		}
+		return atom(hx(b))
+	}
+	panic("c06GenElem: " + t.String())
+}
+
+// c06Expand replaces a generator atom "#<count>s<seed>" (bitset words, Ary elements, the fields of a tuplen tuple)
+// by the explicit list: item i = c06GenElem(item type, seed*1000003+i).
+func c06Expand(t *Ty, v Val) Val {
+	if v.IsL || !strings.HasPrefix(v.A, "#") {
+		return v
+	}
+	i := strings.Index(v.A, "s")
+	n, err := strconv.Atoi(v.A[1:i])
+	if err != nil {
+		panic(err)
+	}
+	seed, err := strconv.ParseUint(v.A[i+1:], 10, 64)
+	if err != nil {
+		panic(err)
+	}
+	vs := make([]Val, n)
+	for k := range vs {
+		x := seed*1000003 + uint64(k)
+		switch t.Kind {
+		case "bitset":
+			vs[k] = atom(hexU(c06Mix(x), 16))
+		case "ary":
+			vs[k] = c06GenElem(t.Args[0], x)
+		case "tuple":
+			vs[k] = c06GenElem(t.Args[k], x)
+		default:
+			panic("generator value for " + t.String())
+		}
+	}
+	return list(vs...)
+}
+
 // ---------- types ----------
 
+// (a tuple written "tuplen:N(t)" has N fields of type t; Compact keeps that spelling for the op line)
 type Ty struct {
-	Kind string // leaf name, or tuple/option/opt1/opt0/ary/fixedbits
-	Len  string // ary: prefix kind
-	N    int    // fixedbits: bytes
-	Args []*Ty
+	Compact string
+	Kind    string // leaf name, or tuple/option/opt1/opt0/ary/fixedbits
+	Len     string // ary: prefix kind
+	N       int    // fixedbits: bytes
+	Args    []*Ty
 }
 
 func (t *Ty) String() string {
+	if t.Compact != "" {
+		return t.Compact
+	}
 	switch t.Kind {
 	case "tuple", "option", "opt1", "opt0":
 		parts := make([]string, len(t.Args))
@@ -162,6 +302,14 @@ func parseTy(s string) (*Ty, string) {
 				continue
 			}
 			if strings.HasPrefix(s, ")") {
+				if strings.HasPrefix(head, "tuplen:") {
+					n, _ := strconv.Atoi(head[7:])
+					e := t.Args[0]
+					t.Kind, t.Compact, t.Args = "tuple", head+"("+e.String()+")", nil
+					for k := 0; k < n; k++ {
+						t.Args = append(t.Args, e)
+					}
+				}
 				return t, s[1:]
 			}
 			panic("bad type syntax near " + s)
@@ -322,7 +470,7 @@ var (
 			for i, x := range *p {
 				parts[i] = hexU(uint64(x), 16)
 			}
-			return "(" + strings.Join(parts, ",") + ")"
+			return c06Join(parts)
 		},
 		junk: func(p *pk.BitSet) { *p = pk.BitSet([]int64{0x5a, 0x5b, 0x5c}[:2]) },
 		prep: func(p *pk.BitSet, mode int, target Val) {
@@ -336,7 +484,7 @@ func fixedBitsDesc(n int) desc[pk.FixedBitSet] {
 		z = strings.Repeat("00", n)
 	}
 	return desc[pk.FixedBitSet]{ty: fmt.Sprintf("fixedbits:%d", n),
-		set: func(p *pk.FixedBitSet, v Val) { *p = pk.FixedBitSet(unhx(v.A)) },
+		set: func(p *pk.FixedBitSet, v Val) { *p = pk.FixedBitSet(bytesExpr(v.A)) },
 		get: func(p *pk.FixedBitSet) string { return hx(*p) },
 		junk: func(p *pk.FixedBitSet) {
 			*p = make(pk.FixedBitSet, n)
@@ -400,7 +548,7 @@ func seqOf[L lenT, T pk.FieldEncoder, P fp[T]](lname string, e desc[T]) desc[Seq
 			for i := range p.V {
 				parts[i] = e.get(&p.V[i])
 			}
-			return "(" + strings.Join(parts, ",") + ")"
+			return c06Join(parts)
 		},
 		junk: func(p *S) {
 			s := make([]T, 3)
@@ -520,7 +668,7 @@ func (s sdesc[T, P]) Slice(vs []Val, mode int) (any, any, any, func() string) {
 		for i := range dst {
 			parts[i] = s.d.get(&dst[i])
 		}
-		return "(" + strings.Join(parts, ",") + ")"
+		return c06Join(parts)
 	}
 	return es, &es, &dst, get
 }
@@ -548,6 +696,21 @@ var (
 	elemNames []string // usable as Ary elements and Option payloads (zero value decodes correctly)
 	leafNames []string
 )
+
+// c06Static looks a static type up; FixedBitSet sizes are registered on demand.
+func c06Static(name string) (static, bool) {
+	if s, ok := registry[name]; ok {
+		return s, true
+	}
+	if strings.HasPrefix(name, "fixedbits:") {
+		n, err := strconv.Atoi(name[10:])
+		if err == nil && n >= 0 && n <= 1<<20 {
+			reg(fixedBitsDesc(n), false)
+			return registry[name], true
+		}
+	}
+	return nil, false
+}
 
 func reg[T pk.FieldEncoder, P fp[T]](d desc[T], elem bool) {
 	registry[d.ty] = sdesc[T, P]{d}
